@@ -129,7 +129,7 @@ class Interp:
         self.enums = dict(STD_ENUMS); self.enums.update(enums or {})
         self.structs = structs or {}
         self.models = []         # (regex, handler)
-        self.solver = z3.Solver(); self.solver.set('timeout', solver_timeout)
+        self.solver = z3.Solver(); self.solver.set('timeout', solver_timeout); self.solver_timeout = solver_timeout
         self._asserted = []
         self.nqueries = 0
         self.max_steps = 200000
@@ -160,7 +160,16 @@ class Interp:
         r = self.solver.check()
         self.solver_s += time.time() - t
         if extra is not None: self.solver.pop()
-        if r == z3.unknown: raise Stuck('feasibility query unknown: ' + self.solver.reason_unknown())
+        if r == z3.unknown:
+            # one retry in a fresh (non-incremental) solver with another seed and four times the budget: the incremental solver degrades on long
+            # prefixes and a loaded machine eats the wall-clock budget; unknown after that is Stuck (=> INCONCLUSIVE), never a pass
+            why = self.solver.reason_unknown()
+            s2 = z3.Solver(); s2.set('timeout', int(getattr(self, 'solver_timeout', 120000) or 120000) * 4); s2.set('random_seed', 7919)
+            for c in pc: s2.add(c)
+            if extra is not None: s2.add(extra)
+            t = time.time(); r = s2.check(); self.solver_s += time.time() - t
+            self.stats['feasibility_retries'] = self.stats.get('feasibility_retries', 0) + 1
+            if r == z3.unknown: raise Stuck('feasibility query unknown: ' + why + ' / ' + s2.reason_unknown())
         return r != z3.unsat
 
     # ---- values
